@@ -24,6 +24,17 @@ def get_output_filename(input_file, output_path, fileext):
     return output_file
 
 
+def _file_state(file_name):
+    """
+    Identity, size and modification time of a file, None if there is none.
+    """
+    try:
+        st = os.stat(file_name)
+    except OSError:
+        return None
+    return (st.st_ino, st.st_size, st.st_mtime_ns)
+
+
 def gen_file(
     input_file, output_file, gen_callback, overwrite=False, success_message="Done."
 ):
@@ -42,13 +53,15 @@ def gen_file(
     """
     if overwrite or not os.path.exists(output_file):
         logger.info("-> %s", output_file)
-        existed = os.path.exists(output_file)
+        before = _file_state(output_file)
         try:
             gen_callback()
         except BaseException:
             # Do not leave a partial output file behind. A later run without
-            # `overwrite` would skip it as already generated.
-            if not existed and os.path.exists(output_file):
+            # `overwrite` would skip it as already generated. A complete
+            # output of an earlier run that the callback has not touched
+            # is kept.
+            if _file_state(output_file) not in (None, before):
                 os.remove(output_file)
             raise
         logger.info("     %s", success_message)
